@@ -52,7 +52,13 @@ TypesOK(e) == LET d == TypeDecls(e.m) IN
 ConstHeadOK(h, c, m) ==
   LET n == OpName(c.op) IN
   CASE n \in {"ConstantTrue", "ConstantFalse"} -> h = "Bool"
-    [] n = "Constant" -> h \in {"UInt", "Int", "Float"}
+    \* "constant lifting by declared type": unsigned integer, signed integer or float as the declaration of its type says
+    [] n = "Constant" -> LET ti == IndexOf(TypeDecls(m), c.rt[1]) IN
+                         IF ti < 0 THEN h \in {"UInt", "Int", "Float"}
+                         ELSE LET t == TypeDecls(m)[ti + 1] IN
+                              IF OpName(t.op) = "TypeInt" THEN h = (IF t.ops[2].w[1] = <<0, 0>> THEN "UInt" ELSE "Int")
+                              ELSE IF OpName(t.op) = "TypeFloat" THEN h = "Float"
+                              ELSE h \in {"UInt", "Int", "Float"}
     [] n = "ConstantComposite" -> h = "Composite"
     [] n = "ConstantNull" -> h = "Null"
     [] OTHER -> TRUE
